@@ -9,6 +9,40 @@ BASELINE_OFF = ("cd /repo && /venv/bin/python -m pytest -ra -q -p no:cacheprovid
 
 # pid -> (technique, level text, level note, design ref)
 CHECKS = {
+    "C17": ("hypothesis PBT, metamorphic relation: run / pack with vs without (two independent) re-annotations of every type expression",
+            "Programs from the type-directed generator (profile weighted to right combs, GET n / UPDATE n / UNPAIR n, PACK/UNPACK, "
+            "values flowing out of field-annotated pair components into every other instruction family, lambdas / APPLY) x "
+            "inputs x environments, with every type expression re-annotated per occurrence; the un-annotated and the annotated "
+            "runs must end with the same stack (types, values, pack() bytes) or fail at the same instruction with the same "
+            "payload; typed values pack/unpack identically under re-annotated types.",
+            "Annotations inside lambda bodies are left untouched when the lambda's code is observable as data (PACK, FAILWITH, "
+            "lambda left on the stack); final values are compared as Tezos values and through pack() bytes, not through "
+            "pytezos' spelling of combs.", "9/C17"),
+    "C19": ("exhaustive enumeration of macro names x hypothesis stacks vs a direct reference meaning of each macro",
+            "Every comparison / conditional / assertion macro, DI..IP, DU..UP, every PAIR/UNPAIR tree up to 6 (thorough 8) leaves, "
+            "every C[AD]+R / SET_C[AD]+R / MAP_C[AD]+R path up to 5 (thorough 6) letters, with and without annotations: the "
+            "macro text is parsed and executed; the result must equal the macro's meaning computed directly on reference values "
+            "(never through the expansion); UNP..R undoes P..R; MAP bodies include one that reads below its argument.",
+            "Meanings written from the Michelson reference's macro definitions.", "9/C19"),
+    "C22": ("hypothesis-generated REPL sessions, metamorphic relation: session with failing cells vs the same session without them",
+            "Sessions of declarations / BEGIN / body cells / COMMIT / free cells over storages with big maps and sapling states, "
+            "with failing cells (failure injected at every instruction position of real code, at top level and inside DIP / IF / "
+            "ITER / MAP / LOOP / lambda bodies, parse errors, bad declarations): after every surviving cell the stack (incl. big_map "
+            "pointers and pending diffs, protection depth), the context (counters, registry, environment, sections), stdout and "
+            "COMMIT results are equal in both sessions; a failing cell leaves stack and context unchanged.",
+            "Which cells fail is observed, not predicted; a cell that raises instead of reporting an error is treated as failed "
+            "and the equivalence is still required.", "9/C22"),
+    "C24": ("hypothesis PBT against a simulated node: node's minimal-fee rule recomputed on the signed bytes",
+            "Batches of 1..6 manager operations of every kind, sources of the four curves, node counters to 2^64, generated "
+            "simulation results; fill() and autofill() then sign(); the signed bytes are decoded by the reference operation codec "
+            "and sum(fee)*1000 >= 100000 + 1000*size + 100*sum(gas_limit) is checked in exact integer nanotez.",
+            "The node is simulated (vlib/fake_node.py); the rule is the Octez default mempool filter.", "9/C24"),
+    "C25": ("hypothesis-generated client call histories against a simulated node with evolving counter and mempool",
+            "Episodes build -> fill/autofill (repeated, failed simulations) -> sign -> inject (refusals, retries) / send, with bakes "
+            "and foreign injections in between; at every injection the payload is decoded by the reference codec and its counters "
+            "must be counter-on-node + own pending operations + 1...",
+            "One group at a time (the discipline the API documents); explicit counter= overrides are not generated. The node is "
+            "simulated; it also records whether simulations were asked at the head counter.", "9/C25"),
     "C01": ("hypothesis PBT, type-directed program generator; differential vs independent reference interpreter",
             "Well-typed programs built by construction over the supported core instruction set x inputs x environments "
             "are run by pytezos and by a reference interpreter written from the Michelson reference; final stacks (types "
